@@ -3,6 +3,7 @@
 // usage: sds-harness <property> <tier> <seed> <outdir> <variant>
 mod common;
 mod c17;
+mod c18;
 mod c20;
 
 use common::*;
@@ -25,6 +26,7 @@ fn main() {
     out.stat_n(if cfg!(target_feature = "bmi2") { "build.bmi2" } else { "build.portable" }, 1);
     match prop {
         "C17" => c17::run(&mut rng, &mut out, thorough, variant),
+        "C18" => c18::run(&mut rng, &mut out, thorough, variant),
         "C20" => c20::run(&mut rng, &mut out, thorough, variant),
         _ => {
             eprintln!("unknown property {}", prop);
